@@ -19,12 +19,15 @@ func H_C17_ErrNotLost() {
 
 // ccallOutcome: 0 nil entry, 1 returns nil, 2 returns its own error, 3 waits for its context
 // and returns context.Canceled, 4 returns context.Canceled at once of its own accord.
-func ccallEntry(kind int, e error, calls, done *int) ccall.CallConcurrentlyFunc {
+func ccallEntry(kind int, e error, calls, done *int, cx *context.Context) ccall.CallConcurrentlyFunc {
 	if kind == 0 {
 		return nil
 	}
 	return func(ctx context.Context) error {
-		vrt.Atomic(func() { *calls++ })
+		vrt.Atomic(func() {
+			*calls++
+			*cx = ctx // the context this function was given
+		})
 		var err error
 		switch kind {
 		case 1:
@@ -41,11 +44,16 @@ func ccallEntry(kind int, e error, calls, done *int) ccall.CallConcurrentlyFunc 
 	}
 }
 
-func ccallCheck(n int, kinds [3]int, es [3]error, calls, done [3]*int, cancelled bool, err error) {
+func ccallCheck(n int, kinds [3]int, es [3]error, calls, done [3]*int, cxs [3]*context.Context, cancelled bool, err error) {
 	anyErr, allNil, anyWait := false, true, false
 	for i := 0; i < n; i++ {
 		var c, d int
-		vrt.Atomic(func() { c, d = *calls[i], *done[i] })
+		var cx context.Context
+		vrt.Atomic(func() { c, d, cx = *calls[i], *done[i], *cxs[i] })
+		if c >= 1 {
+			// once CallConcurrently has returned, the context given to the functions is cancelled
+			vrt.Assert(cx.Err() != nil, "ccall-function-context-live-after-return")
+		}
 		if kinds[i] == 0 {
 			vrt.Assert(c == 0, "ccall-nil-entry-not-called")
 			continue
@@ -107,8 +115,10 @@ func H_C17_Three() {
 	kinds[2] = vrt.Int("k2", 0, 4)
 	es := [3]error{errors.New("e0"), errors.New("e1"), errors.New("e2")}
 	var c0, c1, c2, d0, d1, d2 int
+	var x0, x1, x2 context.Context
 	calls := [3]*int{&c0, &c1, &c2}
 	done := [3]*int{&d0, &d1, &d2}
+	cxs := [3]*context.Context{&x0, &x1, &x2}
 	ctx, cancel := context.WithCancel(context.Background())
 	cancelled := vrt.Bool("cancel")
 	if cancelled {
@@ -120,10 +130,10 @@ func H_C17_Three() {
 		vrt.Assume(kinds[0] == 2 || kinds[1] == 2 || kinds[2] == 2)
 	}
 	err := ccall.CallConcurrently(ctx,
-		ccallEntry(kinds[0], es[0], calls[0], done[0]),
-		ccallEntry(kinds[1], es[1], calls[1], done[1]),
-		ccallEntry(kinds[2], es[2], calls[2], done[2]))
-	ccallCheck(3, kinds, es, calls, done, cancelled, err)
+		ccallEntry(kinds[0], es[0], calls[0], done[0], cxs[0]),
+		ccallEntry(kinds[1], es[1], calls[1], done[1], cxs[1]),
+		ccallEntry(kinds[2], es[2], calls[2], done[2], cxs[2]))
+	ccallCheck(3, kinds, es, calls, done, cxs, cancelled, err)
 	if err == nil {
 		vrt.Cover("ccall-returns-nil")
 	} else if err == context.Canceled {
@@ -140,8 +150,10 @@ func H_C17_Two() {
 	kinds[1] = vrt.Int("k1", 0, 4)
 	es := [3]error{errors.New("e0"), errors.New("e1"), nil}
 	var c0, c1, d0, d1 int
+	var x0, x1 context.Context
 	calls := [3]*int{&c0, &c1, nil}
 	done := [3]*int{&d0, &d1, nil}
+	cxs := [3]*context.Context{&x0, &x1, nil}
 	ctx, cancel := context.WithCancel(context.Background())
 	cancelled := vrt.Bool("cancel")
 	if cancelled {
@@ -151,9 +163,9 @@ func H_C17_Two() {
 		vrt.Assume(kinds[0] == 2 || kinds[1] == 2)
 	}
 	err := ccall.CallConcurrently(ctx,
-		ccallEntry(kinds[0], es[0], calls[0], done[0]),
-		ccallEntry(kinds[1], es[1], calls[1], done[1]))
-	ccallCheck(2, kinds, es, calls, done, cancelled, err)
+		ccallEntry(kinds[0], es[0], calls[0], done[0], cxs[0]),
+		ccallEntry(kinds[1], es[1], calls[1], done[1], cxs[1]))
+	ccallCheck(2, kinds, es, calls, done, cxs, cancelled, err)
 	if err == nil {
 		vrt.Cover("ccall-returns-nil")
 	} else if err == context.Canceled {
@@ -170,10 +182,15 @@ func H_C17_Small() {
 	kind := vrt.Int("k", 0, 4)
 	e := errors.New("e")
 	var c, d int
+	var cx context.Context
 	ctx, cancel := context.WithCancel(context.Background())
 	vrt.Assume(kind != 3) // a single waiting function never returns unless the caller cancels
 	_ = cancel
-	err = ccall.CallConcurrently(ctx, ccallEntry(kind, e, &c, &d))
+	err = ccall.CallConcurrently(ctx, ccallEntry(kind, e, &c, &d, &cx))
+	if c == 1 {
+		// also with a single function: its context is cancelled once the call has returned
+		vrt.Assert(cx.Err() != nil, "ccall-function-context-live-after-return")
+	}
 	switch kind {
 	case 0:
 		vrt.Assert(err == nil && c == 0, "ccall-single-nil-entry")
